@@ -1,4 +1,5 @@
 CONSTANTS
+  Pool = "all"
   MaxLines = 4
   MaxPerLine = 5
   MaxLexemes = 0
